@@ -1,6 +1,6 @@
 (* C04 — property theorems.  Statements only: each is closed by [exact] of a lemma proved elsewhere.
    Model: C04/Model.v (check_loops, attr_set_expression, port add/remove).  Specification: C04/Spec.v. *)
-From QT Require Import C04.Spec C04.CheckThm C04.InvThm C04.SpecThm.
+From QT Require Import C04.Spec C04.CheckThm C04.InvThm C04.SpecThm C04.ParThm C04.GenOk Gen.C04Gen.
 Open Scope string_scope.
 Open Scope list_scope.
 
@@ -69,6 +69,46 @@ Print Assumptions C04_closes_cycle_b_spec.
 Theorem C04_acyclic_b_spec : forall g, acyclic_b g = true <-> acyclic_distinct g.
 Proof. exact acyclic_b_spec. Qed.
 Print Assumptions C04_acyclic_b_spec.
+
+(* the model of one operation is its specification (walk replaced by closes_cycle) *)
+Theorem C04_step_is_spec_step : forall g o, step g o = spec_step g o.
+Proof. exact step_spec_step. Qed.
+Print Assumptions C04_step_is_spec_step.
+
+(* ---- concurrent requests (several set_attr / remove coroutines in flight on the event loop) ----
+   Regenerated from the source on every run: between `await check_loops(...)` and `self._expression = expression` there is no
+   suspension point, and check_loops awaits nothing but its own recursion. *)
+Theorem C04_store_is_atomic : awaits_between_check_and_store = 0%nat /\ check_loops_foreign_awaits = 0%nat.
+Proof. exact store_is_atomic. Qed.
+Print Assumptions C04_store_is_atomic.
+
+(* so each assignment is one atomic step of the event loop, and every schedule (any number of requests, any number of
+   suspension points before each one's check, any interleaving) is a serialization: the registry it produces is the result
+   of serving, one after the other, the requests that got to their check, in that order; the rest are still pending *)
+Theorem C04_concurrent_step_serializable : forall sched g ts,
+  quiet ts ->
+  exists l, fst (run_sched awaits_between_check_and_store g ts sched) = fold_left apply l g
+            /\ Permutation (l ++ pending (snd (run_sched awaits_between_check_and_store g ts sched))) (pending ts)
+            /\ quiet (snd (run_sched awaits_between_check_and_store g ts sched)).
+Proof. exact concurrent_serializable_gen. Qed.
+Print Assumptions C04_concurrent_step_serializable.
+
+(* hence -- this is C04_acyclic_invariant applied to that serialization -- no interleaving of requests creates a cycle *)
+Theorem C04_concurrent_acyclic : forall sched g ts,
+  quiet ts -> acyclic_distinct g -> acyclic_distinct (fst (run_sched awaits_between_check_and_store g ts sched)).
+Proof. exact concurrent_acyclic_gen. Qed.
+Print Assumptions C04_concurrent_acyclic.
+
+(* what a concurrent step may produce according to Spec.v (the outcomes and the graph of SOME serialization, by the
+   specification of single operations) keeps the registry acyclic; the case files enumerate the serializations with
+   `perms`, which are exactly the permutations *)
+Theorem C04_par_allowed_acyclic : forall g res g', acyclic_distinct g -> par_allowed g res g' -> acyclic_distinct g'.
+Proof. exact par_allowed_acyclic. Qed.
+Print Assumptions C04_par_allowed_acyclic.
+
+Theorem C04_perms_spec : forall (l p : list (op * outcome)), In p (perms l) <-> Permutation l p.
+Proof. exact perms_spec. Qed.
+Print Assumptions C04_perms_spec.
 
 (* non-vacuity: a four-port diamond (with a self reference and a dangling id) is accepted, the edge closing it is rejected *)
 Example C04_diamond_accepted : snd (run four diamond_ops) = [Accepted; Accepted; Accepted].
